@@ -151,6 +151,22 @@ func (w *World) verifyFunc(fn *ssa.Function, c *FuncContract) (res *FuncResult) 
 		}
 		vc.assume(g)
 	}
+	// axioms stated in the contract file of the function's package (assumed,
+	// listed in the evidence)
+	for _, cf := range w.cfiles {
+		if fn.Pkg == nil || cf.PkgPath != fn.Pkg.Pkg.Path() {
+			continue
+		}
+		for _, a := range cf.Axioms {
+			aenv := &SpecEnv{x: x, st: st, pkg: fn.Pkg.Pkg, vars: map[string]*Val{}}
+			g, err := aenv.evalBool(a.Expr)
+			if err != nil {
+				vc.diag("axiom %s: %v", a.Label, err)
+				continue
+			}
+			vc.assume(g)
+		}
+	}
 	// crash invariants hold on entry by assumption
 	for _, ci := range c.Crash {
 		g, err := env.evalBool(ci.Expr)
